@@ -1163,6 +1163,11 @@ impl Parse for FixWord {
                         None => break,
                     }
                 }
+                // PLtoTF.2014.66: digits after the seventh are scanned and ignored
+                // (they are not junk after the property value).
+                while input.peek().and_then(|c| c.to_digit(10)).is_some() {
+                    input.next();
+                }
                 for j in (0..7).rev() {
                     acc = fractional_digits[j].checked_add(acc / 10).unwrap();
                 }
